@@ -139,13 +139,13 @@ type intent struct {
 }
 
 type senderRun struct {
-	mtu    int
-	sess   uint8
-	stream uint32
-	ops    []eop
-	reads  [][]byte // result of every scheduled Read (nil = nil)
-	drain  [][]byte
-	hung   bool
+	mtu      int
+	sess     uint8
+	stream   uint32
+	ops      []eop
+	reads    [][]byte // result of every scheduled Read (nil = nil)
+	drain    [][]byte
+	hung     bool
 	ringFull int
 }
 
